@@ -928,6 +928,9 @@ class Ctx:
         if names is None and not vals and len(segs) >= 2 and segs[-2] not in self.src.enums:
             # unit struct / PhantomData etc.
             return Agg("struct:" + last, [])
+        if names is None and not vals and len(segs) == 1:
+            # bare unit variant of a foreign enum (e.g. io::ErrorKind::ConnectionReset): uninterpreted
+            return Opaque("variant " + last)
         raise Inconclusive(f"aggregate of unknown type {path}")
 
     # ---- function execution ------------------------------------------------------------------
